@@ -38,6 +38,7 @@ func (c Case) String() string {
 var programs = map[string]func() *progs.Prog{
 	"storemap-0-0":    func() *progs.Prog { return progs.StoreMap(0, 0) },
 	"storemap-3-1":    func() *progs.Prog { return progs.StoreMap(3, 1) }, // the store's first segment is empty
+	"storemap-1-3":    func() *progs.Prog { return progs.StoreMap(1, 3) }, // the map stage starts one segment after the store
 	"twostages-0-0-0": func() *progs.Prog { return progs.TwoStages(0, 0, 0) },
 	"twostages-1-2-3": func() *progs.Prog { return progs.TwoStages(1, 2, 3) },
 	"samestage-0-3-0": func() *progs.Prog { return progs.SameStage(0, 3, 0) }, // two stores in one stage, initial blocks in different segments
@@ -341,6 +342,7 @@ func Run(ctx *core.Ctx) int {
 			}
 		}
 	}
+	add("storemap-1-3", 2, true, 3, 6, 6, w12, []string{"empty"}) // the first segment of the map stage still depends on the store's earlier segment
 	// the cache a crash leaves between job completion and merges: partial store files only
 	pc := []string{"partials-seg0", "partials"}
 	add("twostages-0-0-0", 2, true, 1, 4, 4, w12, pc)
